@@ -165,7 +165,11 @@ func (w *Webhook) Handle(
 
 	// Create patch if not equal.
 	if !isEqual {
-		patch, err := cmp.CreateJSONPatch(rj, newRj)
+		// Create the patch against the raw object that was submitted, and not its typed
+		// representation: optional objects that are absent from the request (such as
+		// spec) are present in the typed representation, and a patch computed from the
+		// latter cannot be applied to the former.
+		patch, err := cmp.CreateJSONPatch(json.RawMessage(req.Object.Raw), newRj)
 		if err != nil {
 			return nil, errors.Wrapf(err, "cannot create jsonpatch")
 		}
